@@ -174,7 +174,7 @@ def step (d : DS) (line : String) : DS × String :=
       | none => (d, "= bad-op")
     | ["release"] => finish { d with released := true } (release c) "rc 1"
     | ["uhandlers"] =>
-      let c1 := addHandler c .userAll 0 none none none true
+      let c1 := addIdHandler (addHandler c .userAll 0 none none none true) .userAll (b "uid1") true
       finish d (addTimed c1 .userTimed 1000 true) "ok"
     | ["smcb"] => finish d { c with smCallback := true } "ok"
     | _ => (d, "= bad-op")
